@@ -10,7 +10,7 @@ set_option linter.unusedVariables false
 namespace Program
 section
 variable {σ V : Type} [DecidableEq V]
-variable {S : List Ref} {V0 : List (Option (View V))} {ops : Ops σ V} {cfg : Cfg V}
+variable {I : σ → Heap (Cell V) → Prop} {S : List Ref} {V0 : List (Option (View V))} {ops : Ops σ V} {cfg : Cfg V}
 
 /-- the events recorded by one call -/
 def newEvents (st st' : State σ V) : List (Event (View V)) := st'.trace.drop st.trace.length
@@ -25,9 +25,9 @@ theorem effNgen_some (sc : Schedule) (cfg : Cfg V) (n : Nat) (h : cfg.ngen = som
 
 /-! ### `reset()` -/
 
-theorem reset_spec (hR : Respects S ops) (hS : S.length = 5) (sc : Schedule) (hw : wfReset sc = true)
-    {st : State σ V} (g : Good cfg.depth S V0 st) :
-    ∃ (st' : State σ V) (cur : List Ref), resetCall ops cfg sc st = st' ∧ Good cfg.depth S V0 st' ∧
+theorem reset_spec (hR : Respects I S ops) (hS : S.length = 5) (sc : Schedule) (hw : wfReset sc = true)
+    {st : State σ V} (g : Good I cfg.depth S V0 st) :
+    ∃ (st' : State σ V) (cur : List Ref), resetCall ops cfg sc st = st' ∧ Good I cfg.depth S V0 st' ∧
       st'.trace = st.trace ∧ st'.t = 0 ∧ st'.rep = st.rep ∧ five.map st'.regs = cur.map some ∧
       cur.length = 5 ∧ vals cfg.depth st'.heap cur = V0 := by
   have hV : V0.length = 5 := by rw [← g.svals, vals_length, hS]
@@ -79,15 +79,15 @@ theorem reset_spec (hR : Respects S ops) (hS : S.length = 5) (sc : Schedule) (hw
 
 /-! ### `advance(ngen)` -/
 
-theorem advance_spec (hR : Respects S ops) (hS : S.length = 5) (sc : Schedule) (hg : wfGen sc = true)
-    (he : wfEmpty sc = true) (n : Nat) (hn : cfg.ngen = some n) {st : State σ V} (g : Good cfg.depth S V0 st)
+theorem advance_spec (hR : Respects I S ops) (hS : S.length = 5) (sc : Schedule) (hg : wfGen sc = true)
+    (he : wfEmpty sc = true) (n : Nat) (hn : cfg.ngen = some n) {st : State σ V} (g : Good I cfg.depth S V0 st)
     (cur : List Ref) (hcur : five.map st.regs = cur.map some) (hl : cur.length = 5) :
     ∃ (st' : State σ V) (es : List (Event (View V))) (cur' : List Ref), advanceCall ops cfg sc st = st' ∧
-      Good cfg.depth S V0 st' ∧ st'.trace = st.trace ++ es ∧ st'.t = st.t + n ∧ st'.rep = st.rep ∧
+      Good I cfg.depth S V0 st' ∧ st'.trace = st.trace ++ es ∧ st'.t = st.t + n ∧ st'.rep = st.rep ∧
       five.map st'.regs = cur'.map some ∧ cur'.length = 5 ∧
       ∀ (R : Item (View V) → Item (View V) → Bool), ReflOnRefs R → ∀ given : List (Item (View V)), given.map Prod.fst = cur →
         specAdvance R n st.t V0 given es = true := by
-  have g0 : Good cfg.depth S V0 { st with ngen := cfg.ngen } := g.with_ngen _
+  have g0 : Good I cfg.depth S V0 { st with ngen := cfg.ngen } := g.with_ngen _
   obtain ⟨s', es, cur', q, g', tr, t', rp, _, f, l, _, _, chk⟩ :=
     gens_spec (cfg := cfg) hR hS sc hg n g0 cur hcur hl
   refine ⟨s', es, cur', ?_, g', tr, t', rp, f, l, ?_⟩
@@ -99,12 +99,104 @@ theorem advance_spec (hR : Respects S ops) (hS : S.length = 5) (sc : Schedule) (
     rw [List.append_nil] at this
     simp [specAdvance, this]
 
-/-! ### the classical frame condition (over reachability) implies `Respects` for every region -/
+/-! ### frame conditions over reachability imply `Respects` for every region -/
 
-/-- operators and logbook may mutate the objects reachable from what they are handed and allocate
-    — nothing else: cells not reachable from the arguments are unchanged; a cell that changed or is
-    new holds only references to objects reachable from the arguments or to new cells; returned
-    references are reachable from the arguments or new -/
+/-- **Footprint frame condition: operators that keep what they are handed.**  `known s` lists every
+    reference the operators' internal state `s` holds (for instance everything they were EVER handed
+    or returned).  In any call the operators / the logbook may mutate every object reachable from what
+    they are handed NOW or from what they KEPT, allocate, store such references into such objects,
+    return them and keep them — nothing else: cells not reachable from the arguments or from what is
+    kept are unchanged; a cell that changed or is new holds only references to objects reachable from
+    those roots or to new cells; returned and newly kept references are reachable from those roots or
+    new. -/
+structure Footprint (known : σ → List Ref) (ops : Ops σ V) : Prop where
+  op : ∀ (k : OpK) (s : σ) (h : Heap (Cell V)) (as : List Ref) (t tm : Nat), WFH h →
+      (∀ a ∈ as ++ known s, a < h.length) →
+      h.length ≤ (ops.op k s h as t tm).2.1.length ∧ WFH (ops.op k s h as t tm).2.1 ∧
+      (∀ x, x < h.length → (∀ a ∈ as ++ known s, ¬ Reach h a x) → (ops.op k s h as t tm).2.1[x]? = h[x]?) ∧
+      (∀ (x : Nat) (c : Cell V), (ops.op k s h as t tm).2.1[x]? = some c →
+        h[x]? = some c ∨ ∀ r ∈ c.refs, (∃ a ∈ as ++ known s, Reach h a r) ∨ h.length ≤ r) ∧
+      (∀ r ∈ (ops.op k s h as t tm).2.2, r < (ops.op k s h as t tm).2.1.length ∧
+        ((∃ a ∈ as ++ known s, Reach h a r) ∨ h.length ≤ r)) ∧
+      (ops.op k s h as t tm).2.2.length = arity k ∧
+      (∀ r ∈ known (ops.op k s h as t tm).1, r < (ops.op k s h as t tm).2.1.length ∧
+        ((∃ a ∈ as ++ known s, Reach h a r) ∨ h.length ≤ r))
+  log : ∀ (k : LogK) (s : σ) (h : Heap (Cell V)) (as : List Ref) (t tm : Nat) (rp : Int), WFH h →
+      (∀ a ∈ as ++ known s, a < h.length) →
+      h.length ≤ (ops.log k s h as t tm rp).2.length ∧ WFH (ops.log k s h as t tm rp).2 ∧
+      (∀ x, x < h.length → (∀ a ∈ as ++ known s, ¬ Reach h a x) → (ops.log k s h as t tm rp).2[x]? = h[x]?) ∧
+      (∀ (x : Nat) (c : Cell V), (ops.log k s h as t tm rp).2[x]? = some c →
+        h[x]? = some c ∨ ∀ r ∈ c.refs, (∃ a ∈ as ++ known s, Reach h a r) ∨ h.length ≤ r) ∧
+      (∀ r ∈ known (ops.log k s h as t tm rp).1, r < (ops.log k s h as t tm rp).2.length ∧
+        ((∃ a ∈ as ++ known s, Reach h a r) ∨ h.length ≤ r))
+
+/-- the invariant that goes with `Footprint`: nothing the operators have kept lies inside the object
+    graphs of the stored start containers -/
+def KeptOutside (known : σ → List Ref) (S : List Ref) : σ → Heap (Cell V) → Prop :=
+  fun s h => ∀ a ∈ known s, a < h.length ∧ ¬ InReg h S a
+
+theorem KeptOutside.append {known : σ → List Ref} {s : σ} {h : Heap (Cell V)} (ext : Heap (Cell V))
+    (hI : KeptOutside known S s h) (hreg : ∀ x, InReg h S x → x < h.length) :
+    KeptOutside known S s (h ++ ext) := by
+  intro a ha
+  have hsame : ∀ y, InReg h S y → (h ++ ext)[y]? = h[y]? :=
+    fun y hy => List.getElem?_append_left (hreg y hy)
+  refine ⟨?_, fun hin => (hI a ha).2 ((InReg.congr hsame a).mp hin)⟩
+  rw [List.length_append]; exact Nat.lt_add_right _ (hI a ha).1
+
+/-- **operators that keep and later mutate whatever they were ever handed respect the start
+    containers**, as long as nothing they keep lies inside the start containers' object graphs — an
+    invariant every call re-establishes, because what they can newly keep is reachable from arguments
+    outside the region, from what they kept before, or new -/
+theorem Footprint.respects {known : σ → List Ref} (hF : Footprint known ops) (S : List Ref) :
+    Respects (KeptOutside known S) S ops := by
+  have key : ∀ (h : Heap (Cell V)) (roots : List Ref), (∀ x, InReg h S x → x < h.length) → Iso h S →
+      (∀ a ∈ roots, a < h.length ∧ ¬ InReg h S a) →
+      (∀ x, InReg h S x → x < h.length ∧ ∀ a ∈ roots, ¬ Reach h a x) ∧
+      (∀ r, ((∃ a ∈ roots, Reach h a r) ∨ h.length ≤ r) → ¬ InReg h S r) := by
+    intro h roots hreg iso has
+    refine ⟨fun x hx => ⟨hreg x hx, fun a ha hr => iso.reach (has a ha).2 hr hx⟩, ?_⟩
+    rintro r (⟨a, ha, hr⟩ | hge) hin
+    · exact iso.reach (has a ha).2 hr hin
+    · exact absurd (hreg r hin) (not_lt.mpr hge)
+  have roots_ok : ∀ (s : σ) (h : Heap (Cell V)) (as : List Ref), KeptOutside known S s h →
+      (∀ a ∈ as, a < h.length ∧ ¬ InReg h S a) → ∀ a ∈ as ++ known s, a < h.length ∧ ¬ InReg h S a := by
+    intro s h as hI has a ha
+    rcases List.mem_append.mp ha with ha | ha
+    · exact has a ha
+    · exact hI a ha
+  constructor
+  · intro k s h as t tm hI wf hreg iso has
+    have hro := roots_ok s h as hI has
+    obtain ⟨h1, hwf, h2, h3, h4, h5, h6⟩ := hF.op k s h as t tm wf (fun a ha => (hro a ha).1)
+    obtain ⟨k1, k2⟩ := key h (as ++ known s) hreg iso hro
+    have hsame : ∀ x, InReg h S x → (ops.op k s h as t tm).2.1[x]? = h[x]? :=
+      fun x hx => h2 x (k1 x hx).1 (k1 x hx).2
+    refine ⟨h1, hwf, hsame, ?_, fun r hr => ⟨(h4 r hr).1, k2 r (h4 r hr).2⟩, h5, ?_⟩
+    · intro x c hc hx r hr
+      rcases h3 x c hc with hold | hnew
+      · exact iso x c hold hx r hr
+      · exact k2 r (hnew r hr)
+    · intro r hr
+      exact ⟨(h6 r hr).1, fun hin => k2 r (h6 r hr).2 ((InReg.congr hsame r).mp hin)⟩
+  · intro k s h as t tm rp hI wf hreg iso has
+    have hro := roots_ok s h as hI has
+    obtain ⟨h1, hwf, h2, h3, h6⟩ := hF.log k s h as t tm rp wf (fun a ha => (hro a ha).1)
+    obtain ⟨k1, k2⟩ := key h (as ++ known s) hreg iso hro
+    have hsame : ∀ x, InReg h S x → (ops.log k s h as t tm rp).2[x]? = h[x]? :=
+      fun x hx => h2 x (k1 x hx).1 (k1 x hx).2
+    refine ⟨h1, hwf, hsame, ?_, ?_⟩
+    · intro x c hc hx r hr
+      rcases h3 x c hc with hold | hnew
+      · exact iso x c hold hx r hr
+      · exact k2 r (hnew r hr)
+    · intro r hr
+      exact ⟨(h6 r hr).1, fun hin => k2 r (h6 r hr).2 ((InReg.congr hsame r).mp hin)⟩
+  · intro s h ext hI _ hreg
+    exact hI.append ext hreg
+
+/-- the classical frame condition — operators and logbook keep nothing: they may mutate the objects
+    reachable from what they are handed and allocate, nothing else -/
 structure Frame (ops : Ops σ V) : Prop where
   op : ∀ (k : OpK) (s : σ) (h : Heap (Cell V)) (as : List Ref) (t tm : Nat), WFH h → (∀ a ∈ as, a < h.length) →
       h.length ≤ (ops.op k s h as t tm).2.1.length ∧ WFH (ops.op k s h as t tm).2.1 ∧
@@ -121,37 +213,30 @@ structure Frame (ops : Ops σ V) : Prop where
       (∀ (x : Nat) (c : Cell V), (ops.log k s h as t tm rp).2[x]? = some c →
         h[x]? = some c ∨ ∀ r ∈ c.refs, (∃ a ∈ as, Reach h a r) ∨ h.length ≤ r)
 
-theorem Frame.respects (hF : Frame ops) (S : List Ref) : Respects S ops := by
-  have key : ∀ (h : Heap (Cell V)) (as : List Ref), (∀ x, InReg h S x → x < h.length) → Iso h S →
-      (∀ a ∈ as, a < h.length ∧ ¬ InReg h S a) →
-      (∀ x, InReg h S x → x < h.length ∧ ∀ a ∈ as, ¬ Reach h a x) ∧
-      (∀ r, ((∃ a ∈ as, Reach h a r) ∨ h.length ≤ r) → ¬ InReg h S r) := by
-    intro h as hreg iso has
-    refine ⟨fun x hx => ⟨hreg x hx, fun a ha hr => iso.reach (has a ha).2 hr hx⟩, ?_⟩
-    rintro r (⟨a, ha, hr⟩ | hge) hin
-    · exact iso.reach (has a ha).2 hr hin
-    · exact absurd (hreg r hin) (not_lt.mpr hge)
+/-- keeping nothing is the footprint condition with an empty footprint -/
+theorem Frame.footprint (hF : Frame ops) : Footprint (fun _ : σ => []) ops := by
   constructor
-  · intro k s h as t tm wf hreg iso has
-    obtain ⟨h1, hwf, h2, h3, h4, h5⟩ := hF.op k s h as t tm wf (fun a ha => (has a ha).1)
-    obtain ⟨k1, k2⟩ := key h as hreg iso has
-    refine ⟨h1, hwf, fun x hx => h2 x (k1 x hx).1 (k1 x hx).2, ?_, fun r hr => ⟨(h4 r hr).1, k2 r (h4 r hr).2⟩, h5⟩
-    intro x c hc hx r hr
-    rcases h3 x c hc with hold | hnew
-    · exact iso x c hold hx r hr
-    · exact k2 r (hnew r hr)
-  · intro k s h as t tm rp wf hreg iso has
-    obtain ⟨h1, hwf, h2, h3⟩ := hF.log k s h as t tm rp wf (fun a ha => (has a ha).1)
-    obtain ⟨k1, k2⟩ := key h as hreg iso has
-    refine ⟨h1, hwf, fun x hx => h2 x (k1 x hx).1 (k1 x hx).2, ?_⟩
-    intro x c hc hx r hr
-    rcases h3 x c hc with hold | hnew
-    · exact iso x c hold hx r hr
-    · exact k2 r (hnew r hr)
+  · intro k s h as t tm wf has
+    simp only [List.append_nil] at has ⊢
+    obtain ⟨h1, h2, h3, h4, h5, h6⟩ := hF.op k s h as t tm wf has
+    exact ⟨h1, h2, h3, h4, h5, h6, by simp⟩
+  · intro k s h as t tm rp wf has
+    simp only [List.append_nil] at has ⊢
+    obtain ⟨h1, h2, h3, h4⟩ := hF.log k s h as t tm rp wf has
+    exact ⟨h1, h2, h3, h4, by simp⟩
+
+/-- the invariant of operators that keep nothing (it holds of every state and heap) -/
+abbrev NoKept (S : List Ref) : σ → Heap (Cell V) → Prop := KeptOutside (fun _ : σ => []) S
+
+theorem noKept (S : List Ref) (s : σ) (h : Heap (Cell V)) : NoKept S s h := by
+  intro a ha; simp at ha
+
+theorem Frame.respects (hF : Frame ops) (S : List Ref) : Respects (NoKept S) S ops :=
+  hF.footprint.respects S
 
 /-- a state satisfying the invariant is a state in which `evolve` may be called -/
-theorem Good.ready {st : State σ V} {d : Nat} (hS : S.length = 5) (g : Good d S V0 st) :
-    Ready ops st ∧ startRefs ops st = S ∧ st.start.all Option.isSome = true ∧
+theorem Good.ready {st : State σ V} {d : Nat} (hS : S.length = 5) (g : Good I d S V0 st) :
+    Ready I ops st ∧ startRefs ops st = S ∧ st.start.all Option.isSome = true ∧
       Program.startVals d st.heap st.start = V0 := by
   have hall : st.start.all Option.isSome = true := by
     rw [g.start]; simp
@@ -160,8 +245,10 @@ theorem Good.ready {st : State σ V} {d : Nat} (hS : S.length = 5) (g : Good d S
     simp [List.filterMap_map]
   have hH : startHeap ops st = st.heap := by simp [startHeap, hall]
   have hN : startN0 ops st = st.n0 := by simp [startN0, hall]
+  have hO : startOst ops st = st.ost := by simp [startOst, hall]
   refine ⟨⟨g.nbad, by rw [g.start, List.length_map, hS], by rw [hrefs, hS], by rw [hH], by rw [hH]; exact g.wf,
-    by rw [hH, hN]; exact g.n0le, ?_, by rw [hH, hrefs]; exact g.iso, ?_⟩, hrefs, hall, g.startVals⟩
+    by rw [hH, hN]; exact g.n0le, ?_, by rw [hH, hrefs]; exact g.iso, ?_, by rw [hH, hO]; exact g.inv⟩,
+    hrefs, hall, g.startVals⟩
   · intro x hx; rw [hH, hrefs] at hx; rw [hN]; exact g.region x hx
   · intro r a h; rw [hH, hrefs]; exact g.regs r a h
 
@@ -224,14 +311,14 @@ def runCalls (ops : Ops σ V) (tmax : Nat) (emptyV : V) (depth : Nat) (sc : Sche
     `reset` and `advance` calls meets the Spec call by call, and the invariant (hence the untouched
     initial state) holds at the end.  `noNone` : the history asks for `ngen = None` only if the
     schedule implements the documented default. -/
-theorem history_spec (hR : Respects S ops) (hS : S.length = 5) (sc : Schedule) (hwf : WellFormed sc = true)
+theorem history_spec (hR : Respects I S ops) (hS : S.length = 5) (sc : Schedule) (hwf : WellFormed sc = true)
     (hwr : wfReset sc = true) (tmax : Nat) (emptyV : V) (depth : Nat) (R : Item (View V) → Item (View V) → Bool)
     (hRR : ReflOnRefs R) :
-    ∀ (cs : List Call) (held : Bool) (st : State σ V), Good depth S V0 st →
+    ∀ (cs : List Call) (held : Bool) (st : State σ V), Good I depth S V0 st →
       (held = true → ∃ cur : List Ref, five.map st.regs = cur.map some ∧ cur.length = 5) →
       admissible cs held = true →
       (∀ c ∈ cs, ∀ nrep li, c = .evolve nrep none li → HandlesNone sc = true) →
-      histOK R ops sc tmax emptyV depth V0 cs st ∧ Good depth S V0 (runCalls ops tmax emptyV depth sc cs st) := by
+      histOK R ops sc tmax emptyV depth V0 cs st ∧ Good I depth S V0 (runCalls ops tmax emptyV depth sc cs st) := by
   have hwf' := hwf
   simp only [WellFormed, Bool.and_eq_true] at hwf'
   obtain ⟨⟨⟨_, hempty⟩, hgen⟩, _⟩ := hwf'
@@ -269,7 +356,7 @@ theorem history_spec (hR : Respects S ops) (hS : S.length = 5) (sc : Schedule) (
       · rw [hrun, newEvents_of_append tr, ← hsv]
         exact spec R hRR
       · rw [hrun]; exact this.1
-      · show Good depth S V0 (runCalls ops tmax emptyV depth sc cs (runCall ops tmax emptyV depth sc (.evolve nrep ngen li) st))
+      · show Good I depth S V0 (runCalls ops tmax emptyV depth sc cs (runCall ops tmax emptyV depth sc (.evolve nrep ngen li) st))
         rw [hrun]; exact this.2
     | reset =>
       obtain ⟨s', cur, q, g', tr, t0, _, f, l, hv⟩ :=
@@ -284,7 +371,7 @@ theorem history_spec (hR : Respects S ops) (hS : S.length = 5) (sc : Schedule) (
       · rw [hrun]; exact t0
       · rw [hrun]; unfold newEvents; rw [tr]; simp
       · rw [hrun]; exact this.1
-      · show Good depth S V0 (runCalls ops tmax emptyV depth sc cs (runCall ops tmax emptyV depth sc .reset st))
+      · show Good I depth S V0 (runCalls ops tmax emptyV depth sc cs (runCall ops tmax emptyV depth sc .reset st))
         rw [hrun]; exact this.2
     | advance n =>
       obtain ⟨cur, hcur, hl⟩ := hheld hadm.1
@@ -296,7 +383,7 @@ theorem history_spec (hR : Respects S ops) (hS : S.length = 5) (sc : Schedule) (
       · rw [hrun, newEvents_of_append tr]
         exact spec R hRR _ (by rw [items_fst]; rw [vals_length])
       · rw [hrun]; exact this.1
-      · show Good depth S V0 (runCalls ops tmax emptyV depth sc cs (runCall ops tmax emptyV depth sc (.advance n) st))
+      · show Good I depth S V0 (runCalls ops tmax emptyV depth sc cs (runCall ops tmax emptyV depth sc (.advance n) st))
         rw [hrun]; exact this.2
 
 end
